@@ -5,7 +5,8 @@
    a non-decodable encoding is unsatisfied as soon as any operation needs its element.  No axioms. *)
 Require Import ZArith List Bool.
 From D377 Require Import Base.FieldSec Model.Decaf Model.Gadgets Model.Wrapper Spec.Edwards Spec.DecafSpec.
-From D377 Require Import Proofs.EdwardsLaw Proofs.Codec Proofs.GadgetProofs.
+From D377 Require Import Proofs.EdwardsLaw Proofs.Codec Proofs.GadgetProofs Proofs.Ladder.
+Require Import Lia.
 
 Section WrapperProofs.
   Context {AF : AField}.
@@ -67,6 +68,35 @@ Section WrapperProofs.
     - f_equal; [ring|f_equal]. transitivity (a * (aX p * aX p) + aY p * aY p); [ring|]. rewrite Hp. ring.
     - f_equal; [ring|f_equal].
       transitivity ((1 + 1) - (a * (aX p * aX p) + aY p * aY p)); [ring|]. rewrite Hp. ring.
+  Qed.
+
+  (* ------------------------------------------------------------------ *)
+  (* the scalar-multiplication gadget: for EVERY bit string (any length) the little-endian ladder returns the k-fold sum, k the
+     integer the bits denote *)
+  Lemma gsm_loop (P : apt) : on_curve P ->
+    forall bits res mult n m, res = ed_nsmul a d n P -> mult = ed_nsmul a d m P ->
+      fst (fold_left (fun (st : apt * apt) (b : bool) =>
+                        let '(res, mult) := st in ((if b then gadd res mult else res), gdbl mult)) bits (res, mult))
+      = ed_nsmul a d (n + m * le_nat bits) P.
+  Proof.
+    intro HP. induction bits as [|b r IH]; intros res mult n m Hr Hm.
+    - cbn [fold_left fst le_nat]. rewrite Hr. f_equal. lia.
+    - cbn [fold_left le_nat].
+      assert (Hm2 : gdbl mult = ed_nsmul a d (2 * m) P).
+      { rewrite gdbl_spec; [|rewrite Hm; apply (ed_nsmul_on_curve a d w_a_sq d_ns w_two_nz); exact HP].
+        rewrite Hm. replace (2 * m)%nat with (m + m)%nat by lia. symmetry.
+        apply (ed_nsmul_add a d w_a_sq d_ns w_two_nz). exact HP. }
+      destruct b; cbn [b2n].
+      + assert (Ha : gadd res mult = ed_nsmul a d (n + m) P).
+        { rewrite gadd_spec, Hr, Hm. symmetry. apply (ed_nsmul_add a d w_a_sq d_ns w_two_nz). exact HP. }
+        rewrite (IH _ _ _ _ Ha Hm2). f_equal. lia.
+      + rewrite (IH _ _ _ _ Hr Hm2). f_equal. lia.
+  Qed.
+  Theorem gscalar_mul_le_correct P bits : on_curve P ->
+    gscalar_mul_le a d P bits = ed_nsmul a d (le_nat bits) P.
+  Proof.
+    intro HP. unfold gscalar_mul_le.
+    rewrite (gsm_loop P HP bits (mkapt 0 1) P 0%nat 1%nat); [f_equal; lia|reflexivity|symmetry; apply ed_nsmul_1].
   Qed.
 
   (* ------------------------------------------------------------------ *)
